@@ -1,5 +1,6 @@
 import TerwayModel.Driver.Common
 import TerwayModel.Driver.Net
+import TerwayModel.Driver.Token
 /-
 `drv`: reads one operation per line (`<model>.<op> arg…`), prints one canonical line per input.
 Malformed or unknown lines print `bad-op` — never a default value.
@@ -7,7 +8,7 @@ Malformed or unknown lines print `bad-op` — never a default value.
 open Terway.Drv
 
 structure St where
-  dummy : Unit := ()
+  tok : Token.St := {}
 
 def dispatch (st : St) (line : String) : St × String :=
   match words line with
@@ -16,6 +17,10 @@ def dispatch (st : St) (line : String) : St × String :=
   | head :: args =>
     match head.splitOn "." with
     | ["net", op] => (st, (Net.step op args).getD "bad-op")
+    | ["tok", op] =>
+      match Token.step st.tok op args with
+      | some (t, o) => ({ st with tok := t }, o)
+      | none => (st, "bad-op")
     | _ => (st, "bad-op")
 
 partial def loop (h : IO.FS.Stream) (out : IO.FS.Stream) (st : St) : IO Unit := do
